@@ -77,16 +77,16 @@ DECIDING = {
     'C04': ['verdicts checked against events (iff clause)', 'success forms checked', 'failure forms checked',
             'identity checks of the re-raised exception', 'TimeoutError raised by a critical scheduler',
             'timeout=0 runs'],
-    'C05': ['critical aborts analysed', 'jobs running at the abort instant',
+    'C05': ['critical aborts analysed', 'aborts with cancel requests attributed to jobs', 'jobs running at the abort instant',
             'jobs queued for a slot at the abort instant', 'abort -> shutdown -> end sequences timed'],
     'C06': ['pairs in which a flipped job actually ran', '  ... under a window', '  ... inside a nested scheduler',
             'raised exceptions re-read from the job'],
     'C07': ['windowed scheduler runs replayed', 'runs with more jobs than slots',
             'windows holding nested schedulers'],
-    'C08': ['expiries analysed', 'jobs running at the abort instant',
+    'C08': ['expiries analysed', 'aborts with cancel requests attributed to jobs', 'jobs running at the abort instant',
             'runs over strictly before expiry (timeout must have no effect)',
             '  ... nested (T measured from its own start)'],
-    'C09': ['successful runs analysed', 'forever jobs cut short', 'forever jobs never started',
+    'C09': ['successful runs analysed', 'aborts with cancel requests attributed to jobs', 'forever jobs cut short', 'forever jobs never started',
             'forever jobs that ended before the last regular job'],
     'C10': ['nested runs observed', 'failed runs of non-critical nested schedulers',
             'failed runs of critical nested schedulers', 'exception identity checked one level up',
